@@ -155,6 +155,9 @@ def _safe_run(part, case, rec):
 def run_shard(mod_name, prop, tier, seed, part_index, shard, nshards):
     """Executed in a worker process."""
     import importlib
+    import warnings
+    warnings.filterwarnings('ignore', category=SyntaxWarning)
+    warnings.filterwarnings('ignore', category=DeprecationWarning)
     t0 = time.time()
     mod = importlib.import_module(mod_name)
     ctx = Ctx(prop, tier, seed)
